@@ -97,15 +97,44 @@ def extract(repo):
         c16()
     except OSError as ex:
         notes.append('C16 constants: not extracted (%s)' % ex)
+    # garbage collection policy language (C05): keywords and error contexts of the parser, the
+    # `now` lsmtk hands to the collector (O-3: ttl policies never expire), lsmtk's default policy
+    gc = read(repo, 'sst/src/gc.rs')
+    gc_parser = gc.split('nom, nom, nom', 1)[-1].split('// Determiner //', 1)[0]
+    grab('gcKeywords', lambda: [w for w in re.findall(r'tag\("([^"]+)"\)', gc_parser) if re.fullmatch(r'[a-z_]+', w)]
+         or (_ for _ in ()).throw(Missing('gc keywords')))
+    grab('gcContexts', lambda: re.findall(r'context\(\s*"([^"]+)"', gc_parser)
+         or (_ for _ in ()).throw(Missing('gc contexts')))
+    def collector_nows():
+        nows = []
+        for f in ('lsmtk/src/tree/mod.rs', 'lsmtk/src/verifier.rs'):
+            nows += [int(x) for x in re.findall(r'\.collector\(\s*\w+\s*,\s*(\d+)\s*\)', read(repo, f))]
+        if not nows:
+            raise Missing('collector(_, now)')
+        return nows
+    grab('lsmtkCollectorNow', collector_nows)
+    def default_policy():
+        m = re.search(r'gc_policy:\s*GarbageCollectionPolicy::try_from\("([^"]+)"\)', read(repo, 'lsmtk/src/lib.rs'))
+        if not m:
+            raise Missing('default gc_policy')
+        return m.group(1)
+    grab('lsmtkDefaultGcPolicy', default_policy)
     return out, notes
+
+def lean_str(x):
+    return '"' + x.replace('\\', '\\\\').replace('"', '\\"') + '"'
 
 def lean_val(v):
     if isinstance(v, list):
-        return '[' + ', '.join(str(x) for x in v) + ']'
+        return '[' + ', '.join(lean_str(x) if isinstance(x, str) else str(x) for x in v) + ']'
+    if isinstance(v, str):
+        return lean_str(v)
     return str(v)
 
 def lean_ty(v):
-    return 'List Nat' if isinstance(v, list) else 'Nat'
+    if isinstance(v, list):
+        return 'List String' if v and all(isinstance(x, str) for x in v) else 'List Nat'
+    return 'String' if isinstance(v, str) else 'Nat'
 
 def render(consts, notes):
     lines = ['/-! GENERATED by translate/extract.py from the Rust source on every run. Do not edit. -/',
